@@ -65,6 +65,7 @@ func TestScrapeModel(t *testing.T) {
 			"non-trivial = some instrument name contains 'total' or a unit word, or attribute keys collide after sanitisation under the legacy scheme; distinct = distinct case encodings",
 		Quick: 2500, Thorough: 25000,
 		Gen: genCase(false), Run: runSeq,
+		Known: map[string]func(Case, vk.Violation) bool{"legacy_colon_in_attribute_key": knownColonKey},
 	})
 }
 
@@ -75,6 +76,7 @@ func TestConcurrentScrapes(t *testing.T) {
 			"non-trivial = every case (>= 2 concurrent scrapes); distinct = distinct case encodings",
 		Quick: 700, Thorough: 8000,
 		Gen: genCase(true), Run: runConc,
+		Known:  map[string]func(Case, vk.Violation) bool{"legacy_colon_in_attribute_key": knownColonKey},
 		Repeat: 20,
 	})
 }
